@@ -1596,6 +1596,62 @@ explicit hypothesis where pruning of identical sub-trees needs it) -/
 def IdInjective (H : Bytes → Id) : Prop :=
   ∀ t1 t2 : Tree, t1.WF = true → t2.WF = true → t1.id H = t2.id H → t1 = t2
 
+/-- all proper sub-directories of a tree -/
+def Tree.subtrees : Tree → List Tree
+  | .nil => []
+  | .file _ _ r => r.subtrees
+  | .dir _ cs r => cs :: (cs.subtrees ++ r.subtrees)
+
+/-- the directories at and below a node -/
+def subtreesN : Option Node → List Tree
+  | some (.dir t) => t :: t.subtrees
+  | _ => []
+
+/-- the same, only for the sub-trees actually involved: those of the left root against those of the right root -/
+def IdInjectiveOn (H : Bytes → Id) (A B : List Tree) : Prop :=
+  ∀ ta ∈ A, ∀ tb ∈ B, ta.WF = true → tb.WF = true → ta.id H = tb.id H → ta = tb
+
+theorem IdInjective.on {H : Bytes → Id} (h : IdInjective H) (A B : List Tree) : IdInjectiveOn H A B :=
+  fun ta _ tb _ => h ta tb
+
+theorem subtrees_toList {t : Tree} {c : Name × Node} (hc : c ∈ t.toList) :
+    ∀ s ∈ subtreesN (some c.2), s ∈ t.subtrees := by
+  induction t with
+  | nil => cases hc
+  | file m lf r ih =>
+    simp only [Tree.toList, List.mem_cons] at hc
+    rcases hc with rfl | hc
+    · intro s hs; cases hs
+    · exact ih hc
+  | dir m cs r _ ih =>
+    simp only [Tree.toList, List.mem_cons] at hc
+    rcases hc with rfl | hc
+    · intro s hs
+      simp only [subtreesN, List.mem_cons] at hs
+      simp only [Tree.subtrees, List.mem_cons, List.mem_append]
+      rcases hs with h | h
+      · exact Or.inl h
+      · exact Or.inr (Or.inl h)
+    · intro s hs
+      simp only [Tree.subtrees, List.mem_cons, List.mem_append]
+      exact Or.inr (Or.inr (ih hc s hs))
+
+theorem subtreesN_child {x : Option Node} {c : Name × Node} (hc : c ∈ Node.children x) :
+    ∀ s ∈ subtreesN (some c.2), s ∈ subtreesN x := by
+  cases x with
+  | none => cases hc
+  | some nd =>
+    cases nd with
+    | file l => cases hc
+    | dir t =>
+      intro s hs
+      exact List.mem_cons_of_mem _ (subtrees_toList hc s hs)
+
+theorem subtreesN_childOf {x : Option Node} (n : Name) : ∀ s ∈ subtreesN (childOf x n), s ∈ subtreesN x := by
+  cases hc : childOf x n with
+  | none => intro s hs; cases hs
+  | some nd => exact subtreesN_child (c := (n, nd)) (assoc_mem hc)
+
 variable (H : Bytes → Id)
 
 /-- changes reported at and below one pair of nodes -/
@@ -1617,12 +1673,12 @@ theorem children_of_not_dir {x : Option Node} (h : Node.isDir x = false) : Node.
 
 theorem mergeEntries_nil_nil {α : Type} : mergeEntries ([] : List (Name × α)) [] = [] := rfl
 
-theorem chg_succ (f : Flags) (hwu : f.wantUnchanged = false) (fuel : Nat) (P : Path) (x y : Option Node) :
+theorem chg_succ (f : Flags) (fuel : Nat) (P : Path) (x y : Option Node) :
     chg H f (fuel + 1) P x y =
-      if (Node.isDir x && Node.isDir y && (x.map (nodeEntry H P) == y.map (nodeEntry H P))) then []
+      if (!f.wantUnchanged && Node.isDir x && Node.isDir y && (x.map (nodeEntry H P) == y.map (nodeEntry H P))) then []
       else changesOfPair f (x.map (nodeEntry H P)) (y.map (nodeEntry H P)) ++
         (mergeEntries (Node.children x) (Node.children y)).flatMap (fun k => chg H f fuel (P ++ [k.1]) k.2.1 k.2.2) := by
-  simp only [chg, walk, hwu, Bool.not_false, Bool.true_and]
+  simp only [chg, walk]
   split
   · rfl
   · simp only [Bool.false_eq_true, if_false, List.cons_append, List.nil_append, List.flatMap_cons, List.flatMap_assoc]
@@ -1644,21 +1700,30 @@ theorem isDirMode_dirMode : isDirMode dirMode = true := by decide
 
 section pair
 set_option linter.unusedSectionVars false
-variable (f : Flags) (hwu : f.wantUnchanged = false) (hit : f.includeTrees = false)
-include hwu hit
+variable (f : Flags) (hit : f.includeTrees = false)
+include hit
 
 theorem cop_files {a b : Entry} (ha : isDirMode a.mode = false) (hb : isDirMode b.mode = false) (hne : a ≠ b) :
     addedEntries (changesOfPair f (some a) (some b)) = [b] ∧ removedPaths (changesOfPair f (some a) (some b)) = [a.path] := by
   have h1 : ((some a == some b) = false) := by simpa using hne
-  simp only [changesOfPair, h1, hwu, Bool.false_and, Bool.false_eq_true, if_false, skipTree, hit, Bool.not_false,
+  simp only [changesOfPair, h1, Bool.false_and, Bool.false_eq_true, if_false, skipTree, hit, Bool.not_false,
     Bool.true_and, ha, hb]
   split
   · simp [addedEntries, removedPaths]
   · have : (a == b) = false := by simpa using hne
     simp [this, addedEntries, removedPaths]
 
-theorem cop_same (o : Option Entry) : changesOfPair f o o = [] := by
-  simp [changesOfPair, hwu]
+theorem cop_same (o : Option Entry) :
+    addedEntries (changesOfPair f o o) = [] ∧ removedPaths (changesOfPair f o o) = [] := by
+  cases o with
+  | none => simp [changesOfPair, skipTree, addedEntries, removedPaths]
+  | some a =>
+    by_cases ha : isDirMode a.mode = true
+    · simp [changesOfPair, skipTree, hit, ha, addedEntries, removedPaths]
+    · have ha' : isDirMode a.mode = false := by simpa using ha
+      simp only [changesOfPair, skipTree, hit, ha', bne_self_eq_false, Bool.false_and, beq_self_eq_true, Bool.true_and,
+        Bool.not_false, Bool.false_eq_true, if_false, if_true]
+      split <;> simp [addedEntries, removedPaths]
 
 theorem cop_left {a : Entry} (ha : isDirMode a.mode = false) (o : Option Entry)
     (ho : o = none ∨ ∃ b, o = some b ∧ isDirMode b.mode = true) :
@@ -1692,17 +1757,20 @@ theorem nodeEntry_dir_mode (P : Path) (t : Tree) : isDirMode (nodeEntry H P (.di
 theorem specAdded_none_right (x : Option Node) (P : Path) : specAdded x none P = [] := rfl
 theorem specRemoved_none_left (y : Option Node) (P : Path) : specRemoved none y P = [] := rfl
 
-/-- What `tree_changes` (no unchanged entries, no tree entries, with or without `change_type_same`) installs and
+/-- What `tree_changes` (no tree entries; with or without unchanged entries, with or without `change_type_same`;
+the hash assumption only when identical sub-trees are pruned, i.e. `want_unchanged = False`) installs and
 removes at and below a pair of nodes: exactly the entries of the right side that the left side does not hold
 identically, and the paths of the entries of the left side that the right side does not hold identically. -/
-theorem chg_spec (hH : IdInjective H) (f : Flags) (hwu : f.wantUnchanged = false) (hit : f.includeTrees = false) :
+theorem chg_spec (A B : List Tree) (f : Flags) (hH : f.wantUnchanged = false → IdInjectiveOn H A B)
+    (hit : f.includeTrees = false) :
     ∀ (fuel : Nat) (P : Path) (x y : Option Node), NodeWF x → NodeWF y → depthN x < fuel → depthN y < fuel →
+      (∀ s ∈ subtreesN x, s ∈ A) → (∀ s ∈ subtreesN y, s ∈ B) →
       addedEntries (chg H f fuel P x y) = specAdded x y P ∧ removedPaths (chg H f fuel P x y) = specRemoved x y P := by
   intro fuel
   induction fuel with
   | zero => intro P x y _ _ h; omega
   | succ fuel ih =>
-    intro P x y hx hy hdx hdy
+    intro P x y hx hy hdx hdy hsx hsy
     -- the children, through the two views of the merge
     have kidsA : (mergeEntries (Node.children x) (Node.children y)).flatMap
           (fun k => addedEntries (chg H f fuel (P ++ [k.1]) k.2.1 k.2.2)) =
@@ -1719,11 +1787,13 @@ theorem chg_spec (hH : IdInjective H) (f : Flags) (hwu : f.wantUnchanged = false
           rcases hxw.2 with h | h
           · omega
           · rw [h]; simp only [depthN]; omega
-        exact (ih (P ++ [c.1]) (childOf x c.1) (some c.2) hxw.1 hcw.1 hd (by omega)).1
+        exact (ih (P ++ [c.1]) (childOf x c.1) (some c.2) hxw.1 hcw.1 hd (by omega)
+          (fun s hs => hsx s (subtreesN_childOf c.1 s hs)) (fun s hs => hsy s (subtreesN_child hc s hs))).1
       · intro e he
         have hew := children_WF hx e he
         have hd : depthN (none : Option Node) < fuel := by simp only [depthN]; omega
-        rw [(ih (P ++ [e.1]) (some e.2) none hew.1 trivial (by omega) hd).1]
+        rw [(ih (P ++ [e.1]) (some e.2) none hew.1 trivial (by omega) hd
+          (fun s hs => hsx s (subtreesN_child he s hs)) (fun s hs => by cases hs)).1]
         rfl
     have kidsR : (mergeEntries (Node.children x) (Node.children y)).flatMap
           (fun k => removedPaths (chg H f fuel (P ++ [k.1]) k.2.1 k.2.2)) =
@@ -1740,30 +1810,34 @@ theorem chg_spec (hH : IdInjective H) (f : Flags) (hwu : f.wantUnchanged = false
           rcases hyw.2 with h | h
           · omega
           · rw [h]; simp only [depthN]; omega
-        exact (ih (P ++ [c.1]) (some c.2) (childOf y c.1) hcw.1 hyw.1 (by omega) hd).2
+        exact (ih (P ++ [c.1]) (some c.2) (childOf y c.1) hcw.1 hyw.1 (by omega) hd
+          (fun s hs => hsx s (subtreesN_child hc s hs)) (fun s hs => hsy s (subtreesN_childOf c.1 s hs))).2
       · intro e he
         have hew := children_WF hy e he
         have hd : depthN (none : Option Node) < fuel := by simp only [depthN]; omega
-        rw [(ih (P ++ [e.1]) none (some e.2) trivial hew.1 hd (by omega)).2]
+        rw [(ih (P ++ [e.1]) none (some e.2) trivial hew.1 hd (by omega)
+          (fun s hs => by cases hs) (fun s hs => hsy s (subtreesN_child he s hs))).2]
         rfl
-    rw [chg_succ H f hwu]
+    rw [chg_succ H f]
     cases x with
     | none =>
       cases y with
       | none =>
-        simp [Node.isDir, cop_same f hwu hit, Node.children, mergeEntries_nil_nil, specAdded, specRemoved, flattenN,
-          addedEntries, removedPaths]
+        have hc := cop_same f hit none
+        simp only [Node.isDir, Bool.and_false, Bool.false_and, Bool.false_eq_true, if_false, Option.map_none,
+          addedEntries_append, removedPaths_append, addedEntries_flatMap, removedPaths_flatMap, kidsA, kidsR, hc.1, hc.2]
+        simp [specAdded, specRemoved, flattenN, belowN]
       | some ny =>
         cases ny with
         | file ly =>
-          have hc := cop_right f hwu hit (b := nodeEntry H P (.file ly)) hy none (Or.inl rfl)
-          simp only [Node.isDir, Bool.false_and, Bool.false_eq_true, if_false, Option.map_none, Option.map_some,
+          have hc := cop_right f hit (b := nodeEntry H P (.file ly)) hy none (Or.inl rfl)
+          simp only [Node.isDir, Bool.and_false, Bool.false_and, Bool.false_eq_true, if_false, Option.map_none, Option.map_some,
             addedEntries_append, removedPaths_append, addedEntries_flatMap, removedPaths_flatMap, kidsA, kidsR, hc.1, hc.2]
           simp [specAdded, specRemoved, flattenN, belowN, lookupL, nodeEntry, Entry.pre]
         | dir tb =>
-          have hc := cop_dirs f hwu hit none (some (nodeEntry H P (.dir tb))) (Or.inl rfl)
+          have hc := cop_dirs f hit none (some (nodeEntry H P (.dir tb))) (Or.inl rfl)
             (Or.inr ⟨_, rfl, nodeEntry_dir_mode H P tb⟩)
-          simp only [Node.isDir, Bool.false_and, Bool.false_eq_true, if_false, Option.map_none, Option.map_some,
+          simp only [Node.isDir, Bool.and_false, Bool.false_and, Bool.false_eq_true, if_false, Option.map_none, Option.map_some,
             addedEntries_append, removedPaths_append, addedEntries_flatMap, removedPaths_flatMap, kidsA, kidsR, hc]
           simp [specAdded, specRemoved, flattenN, belowN, addedEntries, removedPaths]
     | some nx =>
@@ -1771,8 +1845,8 @@ theorem chg_spec (hH : IdInjective H) (f : Flags) (hwu : f.wantUnchanged = false
       | file lx =>
         cases y with
         | none =>
-          have hc := cop_left f hwu hit (a := nodeEntry H P (.file lx)) hx none (Or.inl rfl)
-          simp only [Node.isDir, Bool.false_and, Bool.false_eq_true, if_false, Option.map_none, Option.map_some,
+          have hc := cop_left f hit (a := nodeEntry H P (.file lx)) hx none (Or.inl rfl)
+          simp only [Node.isDir, Bool.and_false, Bool.false_and, Bool.false_eq_true, if_false, Option.map_none, Option.map_some,
             addedEntries_append, removedPaths_append, addedEntries_flatMap, removedPaths_flatMap, kidsA, kidsR, hc.1, hc.2]
           simp [specAdded, specRemoved, flattenN, belowN, lookupL, nodeEntry]
         | some ny =>
@@ -1780,31 +1854,32 @@ theorem chg_spec (hH : IdInjective H) (f : Flags) (hwu : f.wantUnchanged = false
           | file ly =>
             by_cases hl : lx = ly
             · subst hl
-              simp only [Node.isDir, Bool.false_and, Bool.false_eq_true, if_false, Option.map_some,
-                cop_same f hwu hit, addedEntries_append, removedPaths_append, addedEntries_flatMap, removedPaths_flatMap,
-                kidsA, kidsR]
-              simp [specAdded, specRemoved, flattenN, belowN, lookupL, addedEntries, removedPaths]
+              have hc := cop_same f hit (some (nodeEntry H P (.file lx)))
+              simp only [Node.isDir, Bool.and_false, Bool.false_and, Bool.false_eq_true, if_false, Option.map_some,
+                addedEntries_append, removedPaths_append, addedEntries_flatMap, removedPaths_flatMap,
+                kidsA, kidsR, hc.1, hc.2]
+              simp [specAdded, specRemoved, flattenN, belowN, lookupL]
             · have hne : nodeEntry H P (.file lx) ≠ nodeEntry H P (.file ly) := by
                 intro h
                 simp only [nodeEntry, Entry.mk.injEq, true_and] at h
                 apply hl; cases lx; cases ly; simp_all
-              have hc := cop_files f hwu hit (a := nodeEntry H P (.file lx)) (b := nodeEntry H P (.file ly)) hx hy hne
-              simp only [Node.isDir, Bool.false_and, Bool.false_eq_true, if_false, Option.map_some,
+              have hc := cop_files f hit (a := nodeEntry H P (.file lx)) (b := nodeEntry H P (.file ly)) hx hy hne
+              simp only [Node.isDir, Bool.and_false, Bool.false_and, Bool.false_eq_true, if_false, Option.map_some,
                 addedEntries_append, removedPaths_append, addedEntries_flatMap, removedPaths_flatMap, kidsA, kidsR, hc.1, hc.2]
               have h1 : ¬ ((⟨[], lx.mode, lx.id⟩ : Entry) = ⟨[], ly.mode, ly.id⟩) := by
                 intro h; apply hl; cases lx; cases ly; simp_all
               have h2 : ¬ ((⟨[], ly.mode, ly.id⟩ : Entry) = ⟨[], lx.mode, lx.id⟩) := fun h => h1 h.symm
               simp [specAdded, specRemoved, flattenN, belowN, lookupL, nodeEntry, Entry.pre, h1, h2]
           | dir tb =>
-            have hc := cop_left f hwu hit (a := nodeEntry H P (.file lx)) hx (some (nodeEntry H P (.dir tb)))
+            have hc := cop_left f hit (a := nodeEntry H P (.file lx)) hx (some (nodeEntry H P (.dir tb)))
               (Or.inr ⟨_, rfl, nodeEntry_dir_mode H P tb⟩)
-            simp only [Node.isDir, Bool.false_and, Bool.false_eq_true, if_false, Option.map_some,
+            simp only [Node.isDir, Bool.and_false, Bool.false_and, Bool.false_eq_true, if_false, Option.map_some,
               addedEntries_append, removedPaths_append, addedEntries_flatMap, removedPaths_flatMap, kidsA, kidsR, hc.1, hc.2]
             simp [specAdded, specRemoved, flattenN, belowN, lookupL_flatten_nil, nodeEntry]
       | dir ta =>
         cases y with
         | none =>
-          have hc := cop_dirs f hwu hit (some (nodeEntry H P (.dir ta))) none
+          have hc := cop_dirs f hit (some (nodeEntry H P (.dir ta))) none
             (Or.inr ⟨_, rfl, nodeEntry_dir_mode H P ta⟩) (Or.inl rfl)
           simp only [Node.isDir, Bool.and_false, Bool.false_and, Bool.false_eq_true, if_false, Option.map_none, Option.map_some,
             addedEntries_append, removedPaths_append, addedEntries_flatMap, removedPaths_flatMap, kidsA, kidsR, hc]
@@ -1812,16 +1887,17 @@ theorem chg_spec (hH : IdInjective H) (f : Flags) (hwu : f.wantUnchanged = false
         | some ny =>
           cases ny with
           | file ly =>
-            have hc := cop_right f hwu hit (b := nodeEntry H P (.file ly)) hy (some (nodeEntry H P (.dir ta)))
+            have hc := cop_right f hit (b := nodeEntry H P (.file ly)) hy (some (nodeEntry H P (.dir ta)))
               (Or.inr ⟨_, rfl, nodeEntry_dir_mode H P ta⟩)
             simp only [Node.isDir, Bool.and_false, Bool.false_and, Bool.false_eq_true, if_false, Option.map_some,
               addedEntries_append, removedPaths_append, addedEntries_flatMap, removedPaths_flatMap, kidsA, kidsR, hc.1, hc.2]
             simp [specAdded, specRemoved, flattenN, belowN, lookupL_flatten_nil, nodeEntry, Entry.pre]
           | dir tb =>
-            by_cases hid : ta.id H = tb.id H
-            · have hEq : ta = tb := hH ta tb hx hy hid
+            by_cases hpr : f.wantUnchanged = false ∧ ta.id H = tb.id H
+            · have hEq : ta = tb :=
+                hH hpr.1 ta (hsx ta (by simp [subtreesN])) tb (hsy tb (by simp [subtreesN])) hx hy hpr.2
               subst hEq
-              simp only [Node.isDir, Bool.and_self, Option.map_some, beq_self_eq_true, if_true,
+              simp only [Node.isDir, hpr.1, Bool.not_false, Bool.and_self, Option.map_some, beq_self_eq_true, if_true,
                 addedEntries, removedPaths]
               have hs := flatten_sorted hx
               constructor
@@ -1833,12 +1909,18 @@ theorem chg_spec (hH : IdInjective H) (f : Flags) (hwu : f.wantUnchanged = false
                 rw [List.filter_eq_nil_iff.mpr]
                 · rfl
                 · intro e he; simp [lookupL_of_mem hs he]
-            · have hne : ¬ (nodeEntry H P (.dir ta) = nodeEntry H P (.dir tb)) := by
-                simp only [nodeEntry, Entry.mk.injEq, true_and]; exact hid
-              have hc := cop_dirs f hwu hit (some (nodeEntry H P (.dir ta))) (some (nodeEntry H P (.dir tb)))
+            · have hcond : (!f.wantUnchanged && Node.isDir (some (Node.dir ta)) && Node.isDir (some (Node.dir tb)) &&
+                  ((some (Node.dir ta)).map (nodeEntry H P) == (some (Node.dir tb)).map (nodeEntry H P))) = false := by
+                cases hw : f.wantUnchanged with
+                | true => simp
+                | false =>
+                  have hid : ¬ ta.id H = tb.id H := fun h => hpr ⟨hw, h⟩
+                  simp [Node.isDir, nodeEntry, hid]
+              have hc := cop_dirs f hit (some (nodeEntry H P (.dir ta))) (some (nodeEntry H P (.dir tb)))
                 (Or.inr ⟨_, rfl, nodeEntry_dir_mode H P ta⟩) (Or.inr ⟨_, rfl, nodeEntry_dir_mode H P tb⟩)
-              simp only [Node.isDir, Bool.and_self, Bool.true_and, Option.map_some, Option.some_beq_some, beq_iff_eq, hne,
-                if_false, addedEntries_append, removedPaths_append, addedEntries_flatMap, removedPaths_flatMap, kidsA, kidsR, hc]
+              rw [hcond]
+              simp only [Bool.false_eq_true, if_false, Option.map_some,
+                addedEntries_append, removedPaths_append, addedEntries_flatMap, removedPaths_flatMap, kidsA, kidsR, hc]
               simp [specAdded, specRemoved, flattenN, belowN, addedEntries, removedPaths]
 
 /-! ### from the added / removed characterisation to the patch image -/
@@ -1918,17 +2000,19 @@ variable (H : Bytes → Id)
 theorem pre_nil (e : Entry) : Entry.pre [] e = e := by simp [Entry.pre]
 
 /-- the full `tree_changes` result between two optional roots (default walk: pruning on, no tree entries) -/
-theorem treeChanges_spec (hH : IdInjective H) (cts : Bool) (a b : Option Tree)
+theorem treeChanges_spec (wu cts : Bool) (a b : Option Tree)
+    (hH : wu = false → IdInjectiveOn H (subtreesN (rootNode a)) (subtreesN (rootNode b)))
     (ha : NodeWF (rootNode a)) (hb : NodeWF (rootNode b)) :
-    addedEntries (treeChanges H ⟨false, false, cts⟩ none a b) =
+    addedEntries (treeChanges H ⟨wu, false, cts⟩ none a b) =
       (flattenN (rootNode b)).filter (fun e => lookupL (flattenN (rootNode a)) e.path != some e) ∧
-    removedPaths (treeChanges H ⟨false, false, cts⟩ none a b) =
+    removedPaths (treeChanges H ⟨wu, false, cts⟩ none a b) =
       ((flattenN (rootNode a)).filter (fun e => lookupL (flattenN (rootNode b)) e.path != some e)).map (·.path) := by
   have hda : depthN (rootNode a) < max (optDepth a) (optDepth b) + 2 := by
     cases a <;> simp only [rootNode, depthN, optDepth] <;> omega
   have hdb : depthN (rootNode b) < max (optDepth a) (optDepth b) + 2 := by
     cases b <;> simp only [rootNode, depthN, optDepth] <;> omega
-  have := chg_spec H hH ⟨false, false, cts⟩ rfl rfl _ [] (rootNode a) (rootNode b) ha hb hda hdb
+  have := chg_spec H _ _ ⟨wu, false, cts⟩ hH rfl _ [] (rootNode a) (rootNode b) ha hb hda hdb
+    (fun _ hs => hs) (fun _ hs => hs)
   simp only [chg, specAdded, specRemoved, List.nil_append] at this
   constructor
   · rw [treeChanges, this.1]
@@ -2090,5 +2174,496 @@ theorem ctcAux_single_set (l : Leaf) :
           simp [ctcAux, ctcDirect, groupAdd, hf, this, mkPath_isNil, hs]
         · have := ih (m :: q) sub sub' hlen' (find_dir_WF hwf hf) hi
           simp [ctcAux, ctcDirect, groupAdd, hf, this, insert_isNil hi, hs]
+
+/-! ### commit_tree_changes: one removed entry (with pruning of emptied directories) -/
+
+theorem lookupL_none_of_allGt {t : Tree} {n : Name} (h : t.allGt n = true) (q : Path) :
+    lookupL t.flatten (n :: q) = none := by
+  apply lookupL_eq_none.mpr
+  intro e he heq
+  rcases allGt_flatten h e he with ⟨k, q', hp, hk⟩
+  rw [hp] at heq
+  injection heq with h1 _
+  exact name_lt_irrefl _ (by rw [h1] at hk; exact hk)
+
+theorem del_allGt {t t' : Tree} {n k : Name} (h : t.del n = some t') (hgt : t.allGt k = true) : t'.allGt k = true := by
+  induction t generalizing t' with
+  | nil => cases h
+  | file m lf r ih =>
+    simp only [Tree.allGt, Bool.and_eq_true, decide_eq_true_eq] at hgt
+    simp only [Tree.del] at h
+    split at h
+    · simp only [Option.some.injEq] at h; subst h; exact hgt.2
+    · cases hr : r.del n with
+      | none => simp [hr] at h
+      | some r' =>
+        simp only [hr, Option.map_some, Option.some.injEq] at h; subst h
+        simp [Tree.allGt, hgt.1, ih hr hgt.2]
+  | dir m cs r _ ih =>
+    simp only [Tree.allGt, Bool.and_eq_true, decide_eq_true_eq] at hgt
+    simp only [Tree.del] at h
+    split at h
+    · simp only [Option.some.injEq] at h; subst h; exact hgt.2
+    · cases hr : r.del n with
+      | none => simp [hr] at h
+      | some r' =>
+        simp only [hr, Option.map_some, Option.some.injEq] at h; subst h
+        simp [Tree.allGt, hgt.1, ih hr hgt.2]
+
+theorem del_WF {t t' : Tree} {n : Name} (hwf : t.WF = true) (h : t.del n = some t') : t'.WF = true := by
+  induction t generalizing t' with
+  | nil => cases h
+  | file m lf r ih =>
+    simp only [Tree.WF, Bool.and_eq_true] at hwf
+    simp only [Tree.del] at h
+    split at h
+    · simp only [Option.some.injEq] at h; subst h; exact hwf.2
+    · cases hr : r.del n with
+      | none => simp [hr] at h
+      | some r' =>
+        simp only [hr, Option.map_some, Option.some.injEq] at h; subst h
+        simp [Tree.WF, hwf.1.1, del_allGt hr hwf.1.2, ih hwf.2 hr]
+  | dir m cs r _ ih =>
+    simp only [Tree.WF, Bool.and_eq_true] at hwf
+    simp only [Tree.del] at h
+    split at h
+    · simp only [Option.some.injEq] at h; subst h; exact hwf.2
+    · cases hr : r.del n with
+      | none => simp [hr] at h
+      | some r' =>
+        simp only [hr, Option.map_some, Option.some.injEq] at h; subst h
+        simp [Tree.WF, hwf.1.1.1, hwf.1.1.2, del_allGt hr hwf.1.2, ih hwf.2 hr]
+
+theorem del_of_find {t : Tree} {n : Name} {nd : Node} (h : t.find n = some nd) : ∃ t', t.del n = some t' := by
+  induction t with
+  | nil => cases h
+  | file m lf r ih =>
+    simp only [Tree.find] at h
+    simp only [Tree.del]
+    split
+    · exact ⟨r, rfl⟩
+    · rename_i hne
+      simp only [hne, if_false] at h
+      rcases ih h with ⟨r', hr'⟩
+      exact ⟨_, by rw [hr']; rfl⟩
+  | dir m cs r _ ih =>
+    simp only [Tree.find] at h
+    simp only [Tree.del]
+    split
+    · exact ⟨r, rfl⟩
+    · rename_i hne
+      simp only [hne, if_false] at h
+      rcases ih h with ⟨r', hr'⟩
+      exact ⟨_, by rw [hr']; rfl⟩
+
+theorem lookupL_del {t t' : Tree} {n : Name} (hwf : t.WF = true) (h : t.del n = some t') (k : Name) (q : Path) :
+    lookupL t'.flatten (k :: q) = if k = n then none else lookupL t.flatten (k :: q) := by
+  induction t generalizing t' with
+  | nil => cases h
+  | file m lf r ih =>
+    simp only [Tree.WF, Bool.and_eq_true] at hwf
+    simp only [Tree.del] at h
+    split at h
+    · rename_i hnm
+      simp only [Option.some.injEq] at h; subst h; subst hnm
+      by_cases hk : k = n
+      · subst hk; simp [lookupL_none_of_allGt hwf.1.2]
+      · have : ¬ ([n] = k :: q) := by intro hh; injection hh with h1 _; exact hk h1.symm
+        simp [hk, Tree.flatten, lookupL_cons, this]
+    · rename_i hnm
+      cases hr : r.del n with
+      | none => simp [hr] at h
+      | some r' =>
+        simp only [hr, Option.map_some, Option.some.injEq] at h; subst h
+        simp only [Tree.flatten, lookupL_cons, ih hwf.2 hr]
+        by_cases hmk : [m] = k :: q
+        · have : ¬ k = n := by
+            intro hh; injection hmk with h1 _; exact hnm (hh ▸ h1 ▸ rfl)
+          simp [hmk, this]
+        · simp [hmk]
+  | dir m cs r _ ih =>
+    simp only [Tree.WF, Bool.and_eq_true] at hwf
+    simp only [Tree.del] at h
+    split at h
+    · rename_i hnm
+      simp only [Option.some.injEq] at h; subst h; subst hnm
+      by_cases hk : k = n
+      · subst hk; simp [lookupL_none_of_allGt hwf.1.2]
+      · simp [hk, Tree.flatten, lookupL_append, lookupL_map_under_cons]
+    · rename_i hnm
+      cases hr : r.del n with
+      | none => simp [hr] at h
+      | some r' =>
+        simp only [hr, Option.map_some, Option.some.injEq] at h; subst h
+        simp only [Tree.flatten, lookupL_append, lookupL_map_under_cons, ih hwf.2 hr]
+        by_cases hk : k = n
+        · subst hk
+          have : ¬ k = m := fun hh => hnm hh
+          simp [this]
+        · simp [hk]
+
+theorem set_allGt {t : Tree} {n k : Name} (nd : Node) (hk : k < n) (hgt : t.allGt k = true) :
+    (t.set n nd).allGt k = true := by
+  induction t with
+  | nil => cases nd <;> simp [Tree.set, Tree.allGt, hk]
+  | file m lf r ih =>
+    simp only [Tree.allGt, Bool.and_eq_true, decide_eq_true_eq] at hgt
+    simp only [Tree.set]
+    split
+    · cases nd <;> simp [Tree.allGt, hk, hgt.1, hgt.2]
+    · split
+      · cases nd <;> simp [Tree.allGt, hk, hgt.2]
+      · simp [Tree.allGt, hgt.1, ih hgt.2]
+  | dir m cs r _ ih =>
+    simp only [Tree.allGt, Bool.and_eq_true, decide_eq_true_eq] at hgt
+    simp only [Tree.set]
+    split
+    · cases nd <;> simp [Tree.allGt, hk, hgt.1, hgt.2]
+    · split
+      · cases nd <;> simp [Tree.allGt, hk, hgt.2]
+      · simp [Tree.allGt, hgt.1, ih hgt.2]
+
+theorem set_dir_WF {t s : Tree} {n : Name} (hwf : t.WF = true) (hs : s.WF = true) (hn : s.isNil = false) :
+    (t.set n (.dir s)).WF = true := by
+  induction t with
+  | nil => simp [Tree.set, Tree.WF, hs, hn, Tree.allGt]
+  | file m lf r ih =>
+    simp only [Tree.WF, Bool.and_eq_true] at hwf
+    simp only [Tree.set]
+    split
+    · rename_i hlt
+      simp [Tree.WF, hs, hn, Tree.allGt, hlt, allGt_trans hwf.1.2 hlt, hwf.1.1, hwf.1.2, hwf.2]
+    · rename_i hnlt
+      split
+      · rename_i heq
+        subst heq
+        simp [Tree.WF, hs, hn, hwf.1.2, hwf.2]
+      · rename_i hne
+        have hmn : m < n := by
+          rcases name_tri n m with h1 | h1 | h1
+          · exact absurd h1 hnlt
+          · exact absurd h1 hne
+          · exact h1
+        simp [Tree.WF, hwf.1.1, set_allGt _ hmn hwf.1.2, ih hwf.2]
+  | dir m cs r _ ih =>
+    simp only [Tree.WF, Bool.and_eq_true] at hwf
+    simp only [Tree.set]
+    split
+    · rename_i hlt
+      simp [Tree.WF, hs, hn, Tree.allGt, hlt, allGt_trans hwf.1.2 hlt, hwf.1.1.1, hwf.1.1.2, hwf.1.2, hwf.2]
+    · rename_i hnlt
+      split
+      · rename_i heq
+        subst heq
+        simp [Tree.WF, hs, hn, hwf.1.2, hwf.2]
+      · rename_i hne
+        have hmn : m < n := by
+          rcases name_tri n m with h1 | h1 | h1
+          · exact absurd h1 hnlt
+          · exact absurd h1 hne
+          · exact h1
+        simp [Tree.WF, hwf.1.1.1, hwf.1.1.2, set_allGt _ hmn hwf.1.2, ih hwf.2]
+
+theorem lookupL_set_dir {t s : Tree} {n : Name} (hwf : t.WF = true) (k : Name) (q : Path) :
+    lookupL (t.set n (.dir s)).flatten (k :: q) =
+      if k = n then (lookupL s.flatten q).map (Entry.under n) else lookupL t.flatten (k :: q) := by
+  induction t with
+  | nil =>
+    simp only [Tree.set, Tree.flatten, List.append_nil, lookupL_map_under_cons]
+    by_cases hk : k = n <;> simp [hk]
+  | file m lf r ih =>
+    simp only [Tree.WF, Bool.and_eq_true] at hwf
+    simp only [Tree.set]
+    split
+    · rename_i hlt
+      simp only [Tree.flatten, lookupL_append, lookupL_map_under_cons]
+      by_cases hk : k = n
+      · subst hk
+        have h1 : ¬ ([m] = k :: q) := by
+          intro hh; injection hh with h1 _; exact name_lt_irrefl _ (h1 ▸ hlt)
+        simp [lookupL_cons, h1, lookupL_none_of_allGt (allGt_trans hwf.1.2 hlt)]
+      · simp [hk]
+    · rename_i hnlt
+      split
+      · rename_i heq
+        subst heq
+        simp only [Tree.flatten, lookupL_append, lookupL_map_under_cons, lookupL_cons]
+        by_cases hk : k = n
+        · subst hk; simp [lookupL_none_of_allGt hwf.1.2]
+        · have h1 : ¬ ([n] = k :: q) := by intro hh; injection hh with h1 _; exact hk h1.symm
+          simp [hk, h1]
+      · rename_i hne
+        simp only [Tree.flatten, lookupL_cons, ih hwf.2]
+        by_cases hmk : [m] = k :: q
+        · have : ¬ k = n := by
+            intro hh; injection hmk with h1 _; exact hne (hh ▸ h1 ▸ rfl)
+          simp [hmk, this]
+        · simp [hmk]
+  | dir m cs r _ ih =>
+    simp only [Tree.WF, Bool.and_eq_true] at hwf
+    simp only [Tree.set]
+    split
+    · rename_i hlt
+      simp only [Tree.flatten, lookupL_append, lookupL_map_under_cons]
+      by_cases hk : k = n
+      · subst hk
+        have h1 : ¬ k = m := fun hh => name_lt_irrefl _ (hh ▸ hlt)
+        simp [h1, lookupL_none_of_allGt (allGt_trans hwf.1.2 hlt)]
+      · simp [hk]
+    · rename_i hnlt
+      split
+      · rename_i heq
+        subst heq
+        simp only [Tree.flatten, lookupL_append, lookupL_map_under_cons]
+        by_cases hk : k = n
+        · subst hk; simp [lookupL_none_of_allGt hwf.1.2]
+        · simp [hk]
+      · rename_i hne
+        simp only [Tree.flatten, lookupL_append, lookupL_map_under_cons, ih hwf.2]
+        by_cases hk : k = n
+        · subst hk
+          have : ¬ k = m := hne
+          simp [this]
+        · simp [hk]
+
+theorem assoc_toList (t : Tree) (n : Name) : assoc t.toList n = t.find n := by
+  induction t with
+  | nil => rfl
+  | file m lf r ih =>
+    simp only [Tree.toList, assoc_cons, Tree.find, ih]
+    by_cases h : m = n
+    · simp [h]
+    · have : ¬ n = m := fun hh => h hh.symm
+      simp [h, this]
+  | dir m cs r _ ih =>
+    simp only [Tree.toList, assoc_cons, Tree.find, ih]
+    by_cases h : m = n
+    · simp [h]
+    · have : ¬ n = m := fun hh => h hh.symm
+      simp [h, this]
+
+theorem lookupL_flatten_find {t : Tree} (h : t.WF = true) (n : Name) (q : Path) :
+    lookupL t.flatten (n :: q) = (lookupL (flattenN (t.find n)) q).map (Entry.under n) := by
+  rw [lookupL_flatten_cons h, assoc_toList]
+
+theorem ne_bne_path (a b : Path) : (a != b) = true ↔ a ≠ b := by simp
+
+/-- removing one existing entry with commit_tree_changes removes exactly that entry from the flat listing (emptied
+directories are pruned, so the result is again well-formed) -/
+theorem ctcAux_single_del :
+    ∀ (fuel : Nat) (p : Path) (t : Tree) (e : Entry), p.length < fuel → t.WF = true → lookupL t.flatten p = some e →
+      ∃ t', ctcAux fuel t [(p, none)] = .ok t' ∧ t'.WF = true ∧
+        t'.flatten = t.flatten.filter (fun x => x.path != p) := by
+  intro fuel
+  induction fuel with
+  | zero => intro p t e h; omega
+  | succ fuel ih =>
+    intro p t e hlen hwf hlk
+    cases p with
+    | nil => rw [lookupL_flatten_nil] at hlk; cases hlk
+    | cons n p' =>
+      cases p' with
+      | nil =>
+        -- a leaf directly in this tree
+        have hfind : ∃ l, t.find n = some (.file l) := by
+          rw [lookupL_flatten_find hwf] at hlk
+          cases hf : t.find n with
+          | none => rw [hf] at hlk; cases hlk
+          | some nd =>
+            cases nd with
+            | file l => exact ⟨l, rfl⟩
+            | dir s => rw [hf] at hlk; simp [flattenN, lookupL_flatten_nil] at hlk
+        rcases hfind with ⟨l, hf⟩
+        rcases del_of_find hf with ⟨t', hdel⟩
+        refine ⟨t', by simp [ctcAux, ctcDirect, hdel], del_WF hwf hdel, ?_⟩
+        apply sorted_ext (flatten_sorted (del_WF hwf hdel)) ((flatten_sorted hwf).filter _)
+        intro x
+        rw [lookupL_filter (fun q => q != [n])]
+        cases x with
+        | nil => simp [lookupL_flatten_nil]
+        | cons k q =>
+          rw [lookupL_del hwf hdel]
+          by_cases hk : k = n
+          · subst hk
+            by_cases hq : q = []
+            · subst hq; simp
+            · have : lookupL t.flatten (k :: q) = none := by
+                rw [lookupL_flatten_find hwf, hf]
+                have : ¬ ([] = q) := fun hh => hq hh.symm
+                simp [flattenN, lookupL_cons, this]
+              simp [this]
+          · have : (k :: q != [n]) = true := by
+              rw [ne_bne_path]; intro hh; injection hh with h1 _; exact hk h1
+            simp [hk, this]
+      | cons m q =>
+        have hfind : ∃ sub e', t.find n = some (.dir sub) ∧ lookupL sub.flatten (m :: q) = some e' := by
+          rw [lookupL_flatten_find hwf] at hlk
+          cases hf : t.find n with
+          | none => rw [hf] at hlk; cases hlk
+          | some nd =>
+            cases nd with
+            | file l => rw [hf] at hlk; simp [flattenN, lookupL_cons] at hlk
+            | dir s =>
+              rw [hf] at hlk
+              simp only [flattenN, Option.map_eq_some_iff] at hlk
+              rcases hlk with ⟨e', he', _⟩
+              exact ⟨s, e', rfl, he'⟩
+        rcases hfind with ⟨sub, e', hf, hsub⟩
+        have hlen' : (m :: q).length < fuel := by simp at hlen ⊢; omega
+        have hsubwf := find_dir_WF hwf hf
+        rcases ih (m :: q) sub e' hlen' hsubwf hsub with ⟨sub', hctc, hwf', hfl'⟩
+        have hlk_sub' : ∀ q0, lookupL sub'.flatten q0 = if (q0 != m :: q) then lookupL sub.flatten q0 else none := by
+          intro q0; rw [hfl', lookupL_filter (fun z => z != m :: q)]
+        by_cases hnil : sub'.isNil = true
+        · rcases del_of_find hf with ⟨t', hdel⟩
+          refine ⟨t', by simp [ctcAux, ctcDirect, groupAdd, hf, hctc, hnil, hdel], del_WF hwf hdel, ?_⟩
+          apply sorted_ext (flatten_sorted (del_WF hwf hdel)) ((flatten_sorted hwf).filter _)
+          intro x
+          rw [lookupL_filter (fun z => z != n :: m :: q)]
+          cases x with
+          | nil => simp [lookupL_flatten_nil]
+          | cons k q0 =>
+            rw [lookupL_del hwf hdel]
+            by_cases hk : k = n
+            · subst hk
+              have hsn : sub' = .nil := by cases sub' <;> simp_all [Tree.isNil]
+              by_cases hq0 : q0 = m :: q
+              · subst hq0; simp
+              · have h1 := hlk_sub' q0
+                have hne : (q0 != m :: q) = true := by rw [ne_bne_path]; exact hq0
+                rw [hsn, hne] at h1
+                simp only [Tree.flatten, lookupL_nil, if_true] at h1
+                have : lookupL t.flatten (k :: q0) = none := by
+                  rw [lookupL_flatten_find hwf, hf]; simp [flattenN, ← h1]
+                simp [this]
+            · have : (k :: q0 != n :: m :: q) = true := by
+                rw [ne_bne_path]; intro hh; injection hh with h1 _; exact hk h1
+              simp [hk, this]
+        · have hnil' : sub'.isNil = false := by simpa using hnil
+          refine ⟨t.set n (.dir sub'), by simp [ctcAux, ctcDirect, groupAdd, hf, hctc, hnil'],
+            set_dir_WF hwf hwf' hnil', ?_⟩
+          apply sorted_ext (flatten_sorted (set_dir_WF hwf hwf' hnil')) ((flatten_sorted hwf).filter _)
+          intro x
+          rw [lookupL_filter (fun z => z != n :: m :: q)]
+          cases x with
+          | nil => simp [lookupL_flatten_nil]
+          | cons k q0 =>
+            rw [lookupL_set_dir hwf]
+            by_cases hk : k = n
+            · subst hk
+              rw [hlk_sub' q0, lookupL_flatten_find hwf, hf]
+              by_cases hq0 : q0 = m :: q
+              · subst hq0; simp
+              · have hne : (q0 != m :: q) = true := by rw [ne_bne_path]; exact hq0
+                have hne2 : (k :: q0 != k :: m :: q) = true := by
+                  rw [ne_bne_path]; intro hh; injection hh with _ h2; exact hq0 h2
+                simp [hne, hne2, flattenN]
+            · have : (k :: q0 != n :: m :: q) = true := by
+                rw [ne_bne_path]; intro hh; injection hh with h1 _; exact hk h1
+              simp [hk, this]
+
+/-! ### tree_lookup_path agrees with the flat listing -/
+
+theorem lookupRel_of_flatten (H : Bytes → Id) {t : Tree} (hwf : t.WF = true) {p : Path} {e : Entry}
+    (h : lookupL t.flatten p = some e) : t.lookupRel H p = .ok (e.mode, e.id) := by
+  induction t generalizing p e with
+  | nil => cases h
+  | file m lf r ih =>
+    simp only [Tree.WF, Bool.and_eq_true] at hwf
+    cases p with
+    | nil => rw [lookupL_flatten_nil] at h; cases h
+    | cons n p' =>
+      simp only [Tree.flatten, lookupL_cons] at h
+      by_cases hn : n = m
+      · subst hn
+        by_cases hp' : p' = []
+        · subst hp'
+          simp only [if_true, Option.some.injEq] at h
+          subst h
+          simp [Tree.lookupRel]
+        · have : ¬ ([n] = n :: p') := by intro hh; injection hh with _ h2; exact hp' h2.symm
+          simp only [this, if_false] at h
+          rw [lookupL_none_of_allGt hwf.1.2] at h; cases h
+      · have : ¬ ([m] = n :: p') := by intro hh; injection hh with h1 _; exact hn h1.symm
+        simp only [this, if_false] at h
+        simp [Tree.lookupRel, hn, ih hwf.2 h]
+  | dir m cs r ihc ihr =>
+    simp only [Tree.WF, Bool.and_eq_true] at hwf
+    cases p with
+    | nil => rw [lookupL_flatten_nil] at h; cases h
+    | cons n p' =>
+      simp only [Tree.flatten, lookupL_append, lookupL_map_under_cons] at h
+      by_cases hn : n = m
+      · subst hn
+        simp only [if_true] at h
+        cases hc : lookupL cs.flatten p' with
+        | none =>
+          rw [hc] at h
+          simp only [Option.map_none, Option.none_or] at h
+          rw [lookupL_none_of_allGt hwf.1.2] at h; cases h
+        | some e' =>
+          rw [hc] at h
+          simp only [Option.map_some, Option.some_or, Option.some.injEq] at h
+          subst h
+          have hp' : p' ≠ [] := by
+            intro hh; subst hh; rw [lookupL_flatten_nil] at hc; cases hc
+          simp [Tree.lookupRel, hp', ihc hwf.1.1.2 hc, Entry.under]
+      · simp only [hn, if_false, Option.none_or] at h
+        simp [Tree.lookupRel, hn, ihr hwf.2 h]
+
+/-! ### paths at the byte boundary: split ∘ join = id on valid names -/
+
+theorem splitOn_ne_nil (sep : UInt8) (b : Bytes) : splitOn sep b ≠ [] := by
+  induction b with
+  | nil => simp [splitOn]
+  | cons x xs ih =>
+    simp only [splitOn]
+    split
+    · simp
+    · split <;> simp
+
+theorem splitOn_no_sep (sep : UInt8) (c : Bytes) (h : sep ∉ c) : splitOn sep c = [c] := by
+  induction c with
+  | nil => rfl
+  | cons x xs ih =>
+    have hx : x ≠ sep := fun e => h (e ▸ List.mem_cons_self)
+    have hxs : sep ∉ xs := fun hm => h (List.mem_cons_of_mem _ hm)
+    simp [splitOn, ih hxs, hx]
+
+theorem splitOn_append_sep (sep : UInt8) (c rest : Bytes) (h : sep ∉ c) :
+    splitOn sep (c ++ sep :: rest) = c :: splitOn sep rest := by
+  induction c with
+  | nil =>
+    simp only [List.nil_append, splitOn]
+    cases hr : splitOn sep rest with
+    | nil => exact absurd hr (splitOn_ne_nil sep rest)
+    | cons y ys => simp
+  | cons x xs ih =>
+    have hx : x ≠ sep := fun e => h (e ▸ List.mem_cons_self)
+    have hxs : sep ∉ xs := fun hm => h (List.mem_cons_of_mem _ hm)
+    simp only [List.cons_append, splitOn, ih hxs]
+    simp [hx]
+
+theorem validName_no_sep {n : Name} (h : validName n = true) : Gen.TreeOps.pathSep ∉ n := by
+  simp only [validName, Bool.and_eq_true, Bool.not_eq_true'] at h
+  intro hm
+  have := List.contains_iff_mem.mpr hm
+  rw [h.2] at this; cases this
+
+/-- joining the components of a path with `/` and splitting again is the identity when every component is a valid
+name (so the component-level theorems transfer to dulwich's byte paths) -/
+theorem splitPath_joinPath {p : Path} (hne : p ≠ []) (hv : p.all validName = true) : splitPath (joinPath p) = p := by
+  induction p with
+  | nil => exact absurd rfl hne
+  | cons c cs ih =>
+    simp only [List.all_cons, Bool.and_eq_true] at hv
+    cases cs with
+    | nil => simp [joinPath, splitPath, splitOn_no_sep _ _ (validName_no_sep hv.1)]
+    | cons d ds =>
+      simp only [joinPath, splitPath]
+      rw [splitOn_append_sep _ _ _ (validName_no_sep hv.1)]
+      have := ih (by simp) hv.2
+      simp only [splitPath] at this
+      rw [this]
 
 end Dulwich.TreeOps
